@@ -369,7 +369,9 @@ def union_dispatch(ctx, rep):
 
 def _arms(F, A, rep, tag, gen, only_count=False):
     spec = {
-        ("ArcUnion", "clone", "Clone"): {"First": [(("clone_arc", "clone"), gen[0]), ("from_first", None)], "Second": [(("clone_arc", "clone"), gen[1]), ("from_second", None)]},
+        # (the bump: `x.clone_arc()`, `Arc::clone`, or the borrow's lending helper applied to a cloning closure - `x.with_arc(|a|
+        # mem::forget(a.clone()))` - at the arm's own type; that it is exactly one increment is R-BAL / the CLONE class)
+        ("ArcUnion", "clone", "Clone"): {"First": [(("clone_arc", "clone", "with_arc"), gen[0]), ("from_first", None)], "Second": [(("clone_arc", "clone", "with_arc"), gen[1]), ("from_second", None)]},
         ("ArcUnion", "drop", "Drop"): {"First": [("from_raw", gen[0])], "Second": [("from_raw", gen[1])]},
     }
     for (h, m, tr), want in spec.items():
